@@ -1,6 +1,8 @@
 package drivers
 
 import (
+	"errors"
+	"sync"
 	"context"
 	"fmt"
 	mrand "math/rand"
@@ -18,14 +20,41 @@ import (
 )
 
 type kvInst struct {
-	db  ds.Batching
-	ex  *executor.KVExecutor
-	dir string
+	db    ds.Batching
+	ex    *executor.KVExecutor
+	dir   string
+	fault *faultDS // nil on badger
 }
 
 // RunKVExec drives two independent instances of the real KVExecutor (C15) with the same and with
 // different block histories, different finalize timing, mempool injections, re-initialisation,
 // re-execution and reopen (a new executor on the same datastore; badger in a scratch directory).
+// faultDS is a datastore whose k-th Get (counted from arming) fails once with a transient error.
+type faultDS struct {
+	ds.Batching
+	mu     sync.Mutex
+	failAt int // 0 = disarmed
+	gets   int
+	Fired  bool
+}
+
+func (f *faultDS) arm(k int) { f.mu.Lock(); f.failAt, f.gets, f.Fired = k, 0, false; f.mu.Unlock() }
+func (f *faultDS) disarm()   { f.mu.Lock(); f.failAt = 0; f.mu.Unlock() }
+func (f *faultDS) Get(ctx context.Context, key ds.Key) ([]byte, error) {
+	f.mu.Lock()
+	if f.failAt > 0 {
+		f.gets++
+		if f.gets == f.failAt {
+			f.failAt = 0
+			f.Fired = true
+			f.mu.Unlock()
+			return nil, errors.New("faultds: transient read failure")
+		}
+	}
+	f.mu.Unlock()
+	return f.Batching.Get(ctx, key)
+}
+
 func RunKVExec(c *Ctx) {
 	rng := mrand.New(mrand.NewSource(c.Seed + 21))
 	runs := 120
@@ -47,15 +76,28 @@ func RunKVExec(c *Ctx) {
 				}
 				k.db = db
 			} else {
-				k.db = dssync.MutexWrap(ds.NewMapDatastore())
+				k.fault = &faultDS{Batching: dssync.MutexWrap(ds.NewMapDatastore())}
+				k.db = k.fault
 			}
 			k.ex = executor.VerifNewKVExecutor(k.db)
 			inst[i] = k
 		}
 		ctx := context.Background()
-		call := func(i int, op string, txs []string, h int) {
+		var callAgain []func()
+		var call func(i int, op string, txs []string, h int)
+		call = func(i int, op string, txs []string, h int) {
 			k := inst[i]
-			rec := world.F{"inst": i + 1, "op": op, "h": h, "ok": true, "root": "", "txs": []world.F{}, "n": 0}
+			rec := world.F{"inst": i + 1, "op": op, "h": h, "ok": true, "root": "", "txs": []world.F{}, "n": 0, "fault": false}
+			if op == "exec-fault" { // the execution meets one transient read failure of its datastore
+				op = "exec"
+				rec["op"] = op
+				if k.fault != nil {
+					k.fault.arm(1 + rng.Intn(5))
+					defer func() {
+						k.fault.disarm()
+					}()
+				}
+			}
 			parsed := []world.F{}
 			for _, t := range txs {
 				var kk, vv string
@@ -118,7 +160,16 @@ func RunKVExec(c *Ctx) {
 					k.ex = executor.VerifNewKVExecutor(k.db)
 				}
 			}()
+			if k.fault != nil && k.fault.Fired {
+				rec["fault"] = true
+				k.fault.Fired = false
+			}
 			c.Tr.Emit("XCall", rec)
+			if rec["fault"] == true && rec["ok"] == false && op == "exec" {
+				// the block may or may not have been applied before the read failed: executing it again is harmless
+				k.fault.disarm()
+				callAgain = append(callAgain, func() { call(i, "exec", txs, h) })
+			}
 		}
 		// a common block history, applied to both instances with independent interleavings of the other calls
 		nblocks := 1 + rng.Intn(5)
@@ -161,7 +212,16 @@ func RunKVExec(c *Ctx) {
 						}
 					}
 				}
-				call(i, "exec", blk, b+1)
+				if rng.Intn(5) == 0 {
+					call(i, "exec-fault", blk, b+1)
+					for len(callAgain) > 0 {
+						f := callAgain[0]
+						callAgain = callAgain[1:]
+						f()
+					}
+				} else {
+					call(i, "exec", blk, b+1)
+				}
 			}
 			if rng.Intn(2) == 0 {
 				call(i, "final", nil, nblocks)
